@@ -86,6 +86,10 @@ def step (d : DState) (toks : List String) : DState × String :=
     let (o, s') := whiteChain d.s ((signers nCons (val s)).contains (sid nCons "op")) (Proto.natOf c)
     ({ d with s := s' }, showOutcome o)
   | "ethsetup" :: _ => (d, "ok")
+  | ["dput", c, id] =>
+    let m := (Proto.natOf c, Proto.bytesOf id)
+    ({ d with s := { d.s with done := if m ∈ d.s.done then d.s.done else m :: d.s.done } }, "ok")
+  | ["dcheck", c, id] => (d, if (Proto.natOf c, Proto.bytesOf id) ∈ d.s.done then "done" else "free")
   | "import" :: _ :: th :: s :: rl :: src :: h :: _ :: _ :: ex :: pv :: dec :: fields =>
     let decoded : Option MakeTxParam :=
       match dec, fields with
